@@ -1,0 +1,24 @@
+//go:build verif
+
+package hashring
+
+// VerifC21NodeOrder returns the labels of the ring's rendezvous hash nodes in
+// the order in which the last membership rebuild added (discovered) them.
+// Test-only seam for the C21 runtime monitor; returns nil for foreign Ring
+// implementations.
+func VerifC21NodeOrder(r Ring) []string {
+	if p, ok := r.(*passiveRing); ok {
+		r = p.Ring
+	}
+	rr, ok := r.(*ring)
+	if !ok {
+		return nil
+	}
+	rr.mu.RLock()
+	defer rr.mu.RUnlock()
+	out := make([]string, 0, len(rr.hash.Nodes))
+	for _, n := range rr.hash.Nodes {
+		out = append(out, n.Label)
+	}
+	return out
+}
